@@ -12,7 +12,7 @@ import (
 
 var linzWeights = map[string]int{
 	conc.OGet: 6, conc.OGetX: 4, conc.OExists: 1, conc.OSet: 3, conc.OAdd: 2, conc.OWriteCas: 6, conc.ORemove: 2,
-	conc.ODelete: 2, conc.OUpdate: 5, conc.OWriteUpd: 4, conc.OSetX: 2, conc.OSubDoc: 3, conc.OTouch: 1, conc.OUpdDel: 2,
+	conc.ODelete: 2, conc.OUpdate: 5, conc.OWriteUpd: 4, conc.OSetX: 2, conc.OSubDoc: 3, conc.OTouch: 2, conc.OUpdDel: 2, conc.OGetTouch: 2, conc.OGetExp: 3,
 }
 
 // linzScenario runs one concurrent history and decides it with porcupine.
